@@ -13,6 +13,7 @@ import HappyProofs.C16.PageProps
 import HappyProofs.C16.WPolProps
 import HappyProofs.C16.ClearFresh
 import HappyProofs.C16.RawMain
+import HappyProofs.C16.PropsFinal
 import HappyProofs.C16.ORawF
 /-!
 # C16 — property theorems
